@@ -238,6 +238,7 @@ def run(ctx, P):
     from . import r2
     r2.interface_rules(ctx, P, "C08g", want=("registry",))
     r2.rewritten_probe_restarts(ctx, P, "C08h")
+    r2.compares_like_with_like(ctx, P, "C08i")
     from . import f5
     f5.check_map_key_consistency(ctx, P, "C08f.F5.name-changes-keys", "name_changes", "DnsRegistry")
     f4.check_service_selected_by_resolved_name(ctx, P, "C08e")
